@@ -234,7 +234,9 @@ class Engine:
             r = memo.get(id(x))
             if r is not None:
                 return r[1]
-            if x and x[0] == "b":
+            if x and x[0] in ("loopout", "some_iter") and len(x) == 3:
+                r2 = self.specialise_loop(x, sub)
+            elif x and x[0] == "b":
                 r2 = ("b", self.bdd_subst(x[1], sub))
             elif x and x[0] == "ite":
                 r2 = self.mk_ite(self.bdd_subst(x[1], sub), go(x[2]), go(x[3]))
@@ -247,6 +249,57 @@ class Engine:
             memo[id(x)] = (x, r2)
             return r2
         return go(t)
+
+    def specialise_loop(self, t, sub):
+        """`loopout(u, c)` refers to the summary stored for loop u.  When the substitution touches symbols that occur
+        in that summary (an enclosing loop's index or element, a `lv` of an enclosing loop) the summary itself has to
+        be instantiated: a copy of the loop record under a fresh uid carries the substituted init / step terms."""
+        u = t[1]
+        info = self.loops.get(u)
+        if info is None or not info.step:
+            return t
+        keys = [k for k in sub if not (isinstance(k, tuple) and len(k) >= 2 and k[0] in ("lv", "elem", "idx", "hasnext") and k[1] == u)]
+        if not keys:
+            return t
+        touched = False
+        for c in info.cells:
+            for term in (info.init.get(c), info.step.get(c)):
+                if term is not None and any(contains_term(term, k) for k in keys):
+                    touched = True
+                    break
+            if touched:
+                break
+        if not touched and info.src is not None and any(contains_term(info.src, k) for k in keys):
+            touched = True
+        if not touched:
+            return t
+        cache = self.__dict__.setdefault("_spec_cache", {})
+        ck = (u, tuple(sorted((repr(k), repr(sub[k])) for k in keys)))
+        nu = cache.get(ck)
+        if nu is None:
+            import copy
+            nu = next(self.nuid)
+            cache[ck] = nu
+            ni = copy.copy(info)
+            ni.uid = nu
+            ren = {}
+            for c in info.cells:
+                ren[("lv", u, c)] = ("lv", nu, c)
+            for j in range(8):
+                ren[("elem", u, j)] = ("elem", nu, j)
+            ren[("idx", u)] = ("idx", nu)
+            ren[("hasnext", u)] = ("hasnext", nu)
+            full = dict(ren)
+            for k in keys:
+                full[k] = sub[k]
+            self.loops[nu] = ni         # registered first: nested references resolve against it
+            ni.init = {c: self.subst(v, full) for c, v in info.init.items()}
+            ni.step = {c: self.subst(v, full) for c, v in info.step.items()}
+            ni.src = self.subst(info.src, full) if info.src is not None else None
+            ni.early = [(self.bdd_subst(cnd, full), tg) for cnd, tg in getattr(info, "early", [])]
+            if u in self.__dict__.get("vmaps", {}):
+                self.vmaps[nu] = tuple(self.subst(l, full) for l in self.vmaps[u])
+        return (t[0], nu, t[2])
 
     def resimplify(self, t):
         """Re-apply local simplifications after a substitution exposed structure."""
@@ -410,6 +463,23 @@ class Engine:
         raise Unsupported("update through %r" % (e,))
 
     def write_place(self, st, fr, place, val):
+        l, proj = place
+        if proj and proj[-1][0] == "f":
+            # `s.f = x` on a symbolic struct value: eta-expand the struct so that field-wise updates and whole-struct
+            # replacement ( `*s = S { f: x, g: s.g }` ) build the same term
+            try:
+                pty = self.local_ty(fr, (l, proj[:-1]))
+            except Exception:
+                pty = None
+            if pty is not None and pty[0] == "adt":
+                rec = self.prog.adts.get(pty[1])
+                if rec is not None and rec["kind"] == "Struct" and len(rec["variants"]) == 1:
+                    flds = rec["variants"][0]["fields"]
+                    parent = self.read_place(st, fr, (l, proj[:-1]))
+                    if parent is not None and parent[0] not in ("struct", "undef", "ite"):
+                        i = proj[-1][1]
+                        fields = tuple(val if j == i else self.proj_field(parent, j, flds[j]["n"]) for j in range(len(flds)))
+                        return self.write_place(st, fr, (l, proj[:-1]), ("struct", pty[1], 0, fields))
         r = self.resolve(st, fr, place)
         if r[0] == "val":
             self.notes.append("write into immutable value ignored at %s" % fr.body.path)
@@ -1233,6 +1303,14 @@ class Engine:
         res = []
         sub_out = {("lv", uid, c): ("loopout", uid, c) for c in M}
         sub_some = {("lv", uid, c): ("some_iter", uid, c) for c in M}
+        if info.kind == "iter" and not early and info.src is not None:
+            # push loops: a vector that starts empty and receives exactly one element per iteration is the
+            # element-wise map of the iterated collection (`for .. { v.push(f(..)) }` == `.map(f).collect()`)
+            from .models import shape_len, leaves_of
+            for c in M:
+                closed = self.closed_push_loop(uid, c, info, M, shape_len(self, info.src), tuple(leaves_of(info.src)))
+                if closed is not None:
+                    sub_out[("lv", uid, c)] = closed
         for o in normal:
             pc = st0.pc
             for a in atoms:
@@ -1249,6 +1327,30 @@ class Engine:
             ns = {c: (self.subst(v, sub_some) if contains_uid(v, uid) else v) for c, v in o[1].store.items()}
             self._emit(res, fr, o, State(ns, pc))
         return res
+
+    def closed_push_loop(self, uid, c, info, M, n, leaves):
+        init, step = info.init.get(c), info.step.get(c)
+        if init is None or step is None:
+            return None
+        wrap = None
+        base = init
+        if base[0] == "arrayvec":
+            wrap = ("arrayvec", base[2] if len(base) > 2 else None)
+            base = base[1]
+        empty = base in (("array", ()), ("vec", ()))
+        if not empty:
+            return None
+        if step[0] != "pushed" or step[1] != ("lv", uid, c):
+            return None
+        e = step[2]
+        for c2 in M:
+            if contains_term(e, ("lv", uid, c2)):
+                return None
+        self.__dict__.setdefault("vmaps", {})[uid] = leaves
+        vm = ("vmap", uid, e, leaves, n)
+        if wrap is not None:
+            return ("arrayvec", vm, wrap[1])
+        return ("collected", vm, "Vec")
 
     def _emit(self, res, fr, o, state):
         if o[0] == "return":
@@ -1433,3 +1535,16 @@ def wrap_int(v, ts):
     lo, hi = r
     m = hi - lo + 1
     return (v - lo) % m + lo
+
+
+def contains_term(t, needle, _memo=None):
+    if t == needle:
+        return True
+    if not isinstance(t, tuple):
+        return False
+    if _memo is None:
+        _memo = set()
+    if id(t) in _memo:
+        return False
+    _memo.add(id(t))
+    return any(contains_term(x, needle, _memo) for x in t if isinstance(x, tuple))
